@@ -110,7 +110,8 @@ func report(prop, tier string, seed int, out string, results []jobResult, loaded
 	// vacuity: every harness instance must have at least one complete path with a model
 	var vacuous []string
 	for _, jr := range results {
-		if jr.res.Witness == nil && !jr.res.Skipped && len(jr.res.Violations) == 0 && jr.res.EngineError == "" && jr.spec.Opts["may_be_vacuous"] == "" {
+		// (an instance the time budget did not let finish is "not decided", listed as such, not vacuous)
+		if jr.res.Witness == nil && !jr.res.Skipped && len(jr.res.Violations) == 0 && jr.res.EngineError == "" && len(jr.res.Undecided) == 0 && jr.spec.Opts["may_be_vacuous"] == "" {
 			vacuous = append(vacuous, fmt.Sprintf("%s%v", jr.res.Harness, jr.res.Cases))
 		}
 	}
